@@ -152,6 +152,7 @@ def run(ctx):
         "samples": rep.get("samples") or [],
     })
     _stress(ctx)
+    _flows(ctx)
     ctx.assumptions += [
         "a goroutine reported as [sync.Cond.Wait] by runtime.Stack is parked on the latch's condition variable",
         "counts explored: see cfg (0..3 and 65535); errors nil/e1/e2; arrivals bounded by 4 in the walk",
@@ -201,8 +202,47 @@ def _stress(ctx, episodes=None, replay_dir=None):
                       % (bad["arrived"], bad["count"], bad["canceled"], bad["episode"], bad["op"]))
 
 
+def _flows(ctx, programs=None, replay_dir=None):
+    """E3 for the flow objects built from the latch (lambda/core/flow.go): recorded programs over their whole method set
+    (harness/gate/flow.go) validated by TLC against spec/Trace_Flow.tla, which composes the latch operators of GateOps"""
+    import traceprep
+    programs = programs or (60 if ctx.quick else 1200)
+    scratch = tlc.make_scratch("verif-flow-")
+    ctx._tmp.append(scratch)
+    of = os.path.join(scratch, "trace.ndjson")
+    p = run_vh(["flowprog", "-seed", str(ctx.seed), "-reps", str(programs), "-out", of], timeout=1200)
+    if p.returncode != 0 or not os.path.exists(of):
+        raise Inconclusive("flowprog driver failed rc=%s: %s" % (p.returncode, p.stderr[-1500:]))
+    evs = traceprep.load_ndjson(of)
+    r = tlc.run_tlc("Trace_Flow", "Trace_Flow.cfg", workers=1, timeout=900, scratch=scratch, dfs=True, heap="4g")
+    hws = [int(x) for x in re.findall(r'"hw", (\d+)', r.out)]
+    hw = max(hws) if hws else 1
+    log("E3 flow objects: %d programs, %d events, %d explained" % (programs, len(evs), hw - 1))
+    ctx.coverage["flow_programs"] = programs
+    ctx.coverage["flow_events"] = len(evs)
+    if r.error and hw <= 1:
+        raise Inconclusive("Trace_Flow did not run: %s" % r.error[-800:])
+    if hw != len(evs) + 1:
+        bad = evs[hw - 1]
+        # the program the event belongs to
+        start = max(i for i in range(hw) if evs[i]["e"] == "New")
+        rd = replay_dir or ctx.replay_dir("flow")
+        with open(os.path.join(rd, "program.ndjson"), "w") as f:
+            for e in evs[start:hw]:
+                f.write(json.dumps(e) + "\n")
+        with open(os.path.join(rd, "replay.json"), "w") as f:
+            json.dump({"property": "C11", "engine": "flowprog", "seed": ctx.seed, "programs": programs, "event": bad}, f, indent=1)
+        hist = " ".join("%s%s" % (e.get("op") or e["e"], ("(" + e["gate"] + ")") if e.get("gate") else "") for e in evs[start:hw][-8:])
+        ctx.violation(rd, "flow object (%s flow): no latch operator of GateOps explains event %s after ... %s"
+                      % (evs[start]["kind"], json.dumps({k: v for k, v in bad.items() if v not in ("", 0)}), hist))
+
+
 def replay(ctx, d, meta):
     build_harness()
+    if meta.get("engine") == "flowprog":
+        ctx.seed = int(meta.get("seed", 1))
+        _flows(ctx, programs=int(meta.get("programs", 60)), replay_dir=d)
+        return
     if meta.get("engine") == "gatestress":
         ctx.seed = int(meta.get("seed", 1))
         _stress(ctx, episodes=int(meta.get("episodes", 3000)), replay_dir=d)
